@@ -101,6 +101,33 @@ def run_one(job):
     return idx, 'invalid'
 
 
+def kani_pass(sv):
+    from vf import kani
+    file, line = sv['at'].rsplit(':', 1)
+    scratch = tempfile.mkdtemp(prefix='verif_killk_')
+    try:
+        subprocess.run(['rsync', '-a', '--exclude', 'target', '--exclude', '.git', REPO + '/', scratch + '/repo/'], check=True)
+        path = os.path.join(scratch, 'repo', file)
+        lines = open(path).read().split('\n')
+        li = int(line) - 1
+        for (pat, rep, name) in OPS:
+            if name == sv['op']:
+                new = re.sub(pat, rep, lines[li], count=1)
+                if new == lines[li]:
+                    return 'not-applicable'
+                lines[li] = new
+        open(path, 'w').write('\n'.join(lines))
+        prop = 'C04' if 'shortest_path' in file else 'C05'
+        res = kani.run(prop, os.path.join(scratch, 'work'), repo=os.path.join(scratch, 'repo'))
+        if any(r['status'] == 'failed' for r in res):
+            return 'killed'
+        if all(r['status'] == 'discharged' for r in res):
+            return 'survived'
+        return 'unknown'
+    finally:
+        shutil.rmtree(scratch, ignore_errors=True)
+
+
 def main(argv):
     units = argv or [os.path.basename(p)[:-3] for p in sorted(os.listdir(os.path.join(ROOT, 'contracts', 'units'))) if p.endswith('.rs')]
     out = {'generated_at_repo_head': subprocess.run(['git', '-C', REPO, 'rev-parse', '--short', 'HEAD'], stdout=subprocess.PIPE, text=True).stdout.strip(),
@@ -156,6 +183,19 @@ def main(argv):
             pf[v] += 1
             if v in ('survived', 'other'):
                 summary['survivors'].append({'fn': key[0], 'op': key[1], 'at': key[2], 'line': key[3], 'verdicts': vs})
+        # survivors inside FringeNode's comparison impls are the business of the Kani order lemmas: replay them there
+        for sv in list(summary['survivors']):
+            if not sv['fn'].startswith('FringeNode::'):
+                continue
+            verdict = kani_pass(sv)
+            sv['kani'] = verdict
+            if verdict == 'killed':
+                summary['survived'] -= 1
+                summary['killed'] += 1
+                summary.setdefault('killed_by_kani', []).append(sv)
+                summary['survivors'].remove(sv)
+                per_fn[sv['fn']]['survived'] -= 1
+                per_fn[sv['fn']]['killed'] += 1
         summary['per_function'] = per_fn
         out['units'][unit] = summary
         print('%s: %d mutants: killed %d, survived %d, invalid %d, other %d (%.0fs)' % (
